@@ -338,6 +338,32 @@ def run(ctx):
               and pm.text(pm.nodes[reads[0]]["args"][1]) == "&byte_buf", "bounded-read", "loop-shape", pm.loc(ls[0]["stmt"]) if ls else pm.loc(),
               "at most %s one-byte reads per connection" % bound, "read loop is not a bounded sequence of one-byte reads")
 
+    # the command is the FIRST byte the client sent: the position counter moves only past bytes that were received.  An iteration that
+    # read nothing (failed read, retried) and still goes round through the loop's increment makes the handler ignore the command byte.
+    if ls and reads:
+        Lr = ls[0]
+        rd_local = locals_receiving(pm, r"\bread\(")
+        fail_keys = set()
+        for nm_ in rd_local:
+            fail_keys |= {"(%s < 0)" % nm_, "(-1 == %s)" % nm_, "(%s == -1)" % nm_, "(0 > %s)" % nm_, "(%s <= 0)" % nm_}
+        # a later read on the same path (an inner retry loop) or a compensating decrement of the counter makes up for it
+        ev_r = {i: [("clear", "nothing-read")] for i in reads}
+        for i, n in enumerate(pm.nodes):
+            if (n["k"] == "un" and n.get("op") == "--" and pm.text(n["sub"]) == "num_read") or \
+               (n["k"] == "bin" and n.get("op") == "-=" and pm.text(n["l"]) == "num_read"):
+                ev_r.setdefault(i, []).append(("clear", "nothing-read"))
+        fr = iter_flow(ctx, pm, Lr, ev_r, split=lambda k: k in fail_keys,
+                       edge_tokens=lambda k, p: ["nothing-read"] if (k in fail_keys and p is True) else None)
+        again = False
+        for b in back_sources(Lr):
+            for st_ in (fr.OUT.get(b) or {}).values():
+                if "nothing-read" in st_.may:
+                    again = True
+        ctx.check(not again and bool(rd_local), "command-is-the-first-byte-received", "passed_edge (per iteration)", pm.loc(Lr["stmt"]),
+                  "every iteration that goes round again has received a byte",
+                  "an iteration whose read failed goes round again through the loop's position counter (a retry written as `continue`): the "
+                  "next byte - the client's command - is no longer the one at position 0 and is ignored, the request is answered as unknown")
+
     # ------------------------------------------------ a stalled client cannot wedge a handler: the full-read/write helper retries only EINTR
     # (the 2 s SO_RCVTIMEO / SO_SNDTIMEO surface as EAGAIN; retrying it would defeat the time-outs)
     wf = [f for f in P.fns.values() if f.name == "wrapFull"]
